@@ -353,7 +353,7 @@ def run(ctx):
 
     for rp in load_corpus():
         one(rp['col'], rp['val'], rp.get('valid', True), rp.get('tag', 'corpus'))
-    n = 700 if ctx.tier == 'quick' else 8000
+    n = 700 if ctx.tier == 'quick' else 5000
     rng = ctx.rng
     for i in range(n):
         r = rng.random()
